@@ -245,6 +245,10 @@ def c17():
     for ax in range(4):
         qs.append(Q(f"initslot_limit_axis{ax}", "collider.cpp", "vh_initslot", {"AXIS": ax, "ZERO_OFFSET": None} if ax >= 2 else {"AXIS": ax}, unwind=8, unwindset={"initSlot": 6, "vh_initslot": 6},
                     dyadic=4, cc_defs=["LL_REALLOC_UNREACHABLE"]))
+    for cost in (0, 1):
+        qs.append(Q("mergeslot_subbox_equiv" + ("_cost" if cost else ""), "mergeslot.cpp", "vh_mergeslot_sub", {"CMP_COST": None} if cost else {}, unwind=8, unwindset={"mergeSlot": 6, "vh_mergeslot_sub": 14},
+                    stubs=["_ZN9graphite25Zones20exclude_with_marginsEffi", "_ZN9graphite25Zones12weightedAxisEiffffffffb"], unit_flags={"Collider": ["-fno-inline"], "Intervals": ["-fno-inline"]},
+                    timeout=900 if not cost else 1700, cc_defs=["LL_REALLOC_UNREACHABLE"], dyadic=4, cbmc_flags=["--sat-solver", "cadical"], tiers=("thorough",) if cost else ("quick", "thorough")))
     # the same remove/insert lemmas under the exact-dyadic lowering (only compares, min/max and additions are involved: every obligation holds)
     for k in range(1, 4):
         for e in ("vh_remove", "vh_insert"):
